@@ -6,6 +6,7 @@ import TetlProofs.C10.Parse
 import TetlProofs.C10.Strto
 import TetlProofs.C10.Unchecked
 import TetlProofs.C10.SpecMathlib
+import TetlProofs.C06.Props
 namespace Tetl.C10.Props
 open Tetl Tetl.C10
 
@@ -87,6 +88,31 @@ theorem fromInteger_eq (t : IntTy) (term : Bool) (v : Int) (buf : List Nat) (b :
 /-- non-vacuity of `fromInteger_eq`: `INT8_MIN` in base 2 with terminator into an exact-fit buffer -/
 example : fromInteger ⟨8, true⟩ true (-128) (List.replicate 10 170) 2
     = .ok (.done [45, 49, 48, 48, 48, 48, 48, 48, 48, 0] 9) := by rfl
+
+/-- `etl::reverse(str + isNegative, str + i)` inside `from_integer`: the model's `revRange` (the contract: the
+    sub-range reversed, everything else unchanged) is what the swap loop of `etl::reverse` does on pointers
+    (the random-access branch, model `Tetl.C06.reverseRA`) — C06's theorem `Tetl.C06.Props.reverseRA_eq`, for every
+    buffer and every `[s, e)` inside it.  So `fromInteger_eq` is a statement about the loop, not about a stated
+    contract. -/
+theorem revRange_is_etl_reverse (buf : List Nat) (s e : Nat) (h : s ≤ e ∧ e ≤ buf.length) :
+    Tetl.C06.reverseRA buf s e = revRange buf s e := by
+  have hdec : buf = buf.take s ++ (buf.drop s).take (e - s) ++ buf.drop e := by
+    have h1 : buf.drop s = (buf.drop s).take (e - s) ++ (buf.drop s).drop (e - s) := (List.take_append_drop _ _).symm
+    have h2 : (buf.drop s).drop (e - s) = buf.drop e := by rw [List.drop_drop]; congr 1; omega
+    rw [h2] at h1
+    rw [List.append_assoc, ← h1, List.take_append_drop]
+  have hl1 : (buf.take s).length = s := by rw [List.length_take]; omega
+  have hl2 : s + ((buf.drop s).take (e - s)).length = e := by
+    rw [List.length_take, List.length_drop]; omega
+  have key := Tetl.C06.Props.reverseRA_eq (buf.take s) ((buf.drop s).take (e - s)) (buf.drop e)
+  rw [← hdec, hl1, hl2] at key
+  rw [key]
+  unfold revRange
+  rw [if_pos h]
+
+example : Tetl.C06.reverseRA [45, 51, 50, 49, 170] 1 4 = .ok [45, 49, 50, 51, 170] ∧
+    revRange [45, 51, 50, 49, 170] 1 4 = .ok [45, 49, 50, 51, 170] := by
+  refine ⟨by rfl, by rfl⟩
 
 /-- `to_chars`: `{first + n, {}}` with exactly the `n` characters of the value when they fit into
     `[first, last)` — an exact fit included — and `{last, value_too_large}` otherwise; nothing outside
